@@ -483,6 +483,26 @@ pub fn run(rep: &mut Rep) {
             }
         }
     }
+    // ---- long runs of small packets: hundreds of packets consumed back to back without the transport ever running dry
+    {
+        let ns: Vec<usize> = if rep.quick() { vec![100, 129, 300, 1100] } else { vec![64, 65, 127, 128, 129, 130, 255, 256, 257, 300, 513, 1025, 5000] };
+        rep.note(&format!("long runs of small packets: {:?} packets (QoS 0/1 PUBLISH of 2-9 bytes payload, PINGRESP every 10th) available at once / in reads of <= 512, 64, 7 bytes / arriving in chunks of 100 bytes, compared with one packet per read", ns));
+        for &n in &ns {
+            let mut seq = Vec::with_capacity(n);
+            for j in 0..n {
+                seq.push(if j % 10 == 9 { Item::PingResp } else if j % 3 == 1 { Item::Pub(1, 2 + j % 8) } else { Item::Pub(0, 2 + j % 8) });
+            }
+            let r = reference(rep, &seq);
+            for (pi, plan) in [Plan::Caps(vec![]), Plan::FixedCap(512), Plan::FixedCap(64), Plan::FixedCap(7), Plan::FixedTrickle(100)].iter().enumerate() {
+                let id = format!("run:{n}:{pi}");
+                idx += 1;
+                if rep.take(idx, &id) {
+                    case(rep, &id, &seq, plan, &r);
+                    rep.add("long_runs_of_small_packets", 1);
+                }
+            }
+        }
+    }
     // ---- the same Context after an earlier connection that ended inside a packet (or with whole packets unread behind the cut)
     {
         let seq = vec![Item::PingResp, Item::Pub(1, 30), Item::Pub(0, 600), Item::PingResp];
